@@ -4,6 +4,12 @@
 mod ints;
 #[path = "../../common/rt.rs"]
 mod rt;
+#[path = "../../common/midi.rs"]
+mod midi;
+#[path = "../../common/scan.rs"]
+mod scan;
+#[path = "../../common/cc14.rs"]
+mod cc14;
 
 pub fn c18_extra(_chk: &Check, _tier: Tier, _heavy: &std::sync::atomic::AtomicU64) {}
 
@@ -34,6 +40,11 @@ fn main() {
         "C05" => {
             let chk = Check::new("C05", PART, tier, "exploration");
             ints::run_c05(&chk, tier);
+            chk.finish()
+        }
+        "C07" => {
+            let chk = Check::new("C07", PART, tier, "model_checking");
+            cc14::run_c07_nostd(&chk);
             chk.finish()
         }
         "C18" => {
